@@ -49,6 +49,8 @@ type RedisOutput struct {
 
 	cpGuard         sync.RWMutex
 	checkpointInMem checkpoint.CheckpointInfo
+	// database the connection was in at checkpointInMem.Offset : the next run on this output re-selects it
+	checkpointInMemDb int
 	bisyncSeq       atomic.Int64
 	bisyncOffset    atomic.Int64
 	bisyncMissGuard sync.RWMutex
@@ -686,6 +688,7 @@ func (ro *RedisOutput) setCheckpoint(ctx context.Context, runId string, offset i
 	if !ro.cfg.EnableResumeFromBreakPoint {
 		ro.cpGuard.Lock()
 		ro.checkpointInMem = *checkpointKv
+		ro.checkpointInMemDb = 0 // the stream that follows a snapshot starts with a select
 		ro.cpGuard.Unlock()
 		return nil
 	}
@@ -976,7 +979,7 @@ func (ro *RedisOutput) checkpoint(ctx context.Context, runIds []string) (cpi *ch
 	if !ro.cfg.EnableResumeFromBreakPoint {
 		ro.cpGuard.RLock()
 		defer ro.cpGuard.RUnlock()
-		return &ro.checkpointInMem, 0, nil
+		return &ro.checkpointInMem, ro.checkpointInMemDb, nil
 	}
 
 	cli, err := ro.NewRedisConn(ctx)
@@ -1089,7 +1092,24 @@ func (ro *RedisOutput) sendCmdsBatch(replayWait usync.WaitCloser, conn client.Re
 			// never overwrite the stored checkpoint with the "-1" placeholder
 			shouldUpdateCP = false
 		}
-		if len(cmdQueue) == 0 && shouldInTransaction && !shouldUpdateCP {
+		// the database the connection is in after the queued commands : where the position is stored
+		cpDb := connDb
+		for _, ce := range cmdQueue {
+			if ce.Cmd == "select" {
+				cpDb = ce.Db
+			}
+		}
+		// the in-memory position (no resuming from the target) moves once the batch has been sent
+		setMemCP := func() {
+			if shouldUpdateCP && !ro.cfg.EnableResumeFromBreakPoint {
+				ro.cpGuard.Lock()
+				ro.checkpointInMem.Offset = lastOffset
+				ro.checkpointInMemDb = cpDb
+				ro.cpGuard.Unlock()
+			}
+		}
+		if len(cmdQueue) == 0 && shouldInTransaction && !(shouldUpdateCP && ro.cfg.EnableResumeFromBreakPoint) {
+			setMemCP()
 			return nil
 		}
 
@@ -1119,22 +1139,12 @@ func (ro *RedisOutput) sendCmdsBatch(replayWait usync.WaitCloser, conn client.Re
 			if ro.cfg.EnableResumeFromBreakPoint {
 				// the checkpoint lands in the database the connection is in after the queued commands,
 				// that database needs the run id fields, otherwise the offset is useless on restart
-				cpDb := connDb
-				for _, ce := range cmdQueue {
-					if ce.Cmd == "select" {
-						cpDb = ce.Db
-					}
-				}
 				if _, ok := cpInDbs[cpDb]; !ok {
 					cpInDbs[cpDb] = struct{}{}
 					markedCpDb, marked = cpDb, true
 					batcher.Put("hset", checkpointKv.Key, checkpointKv.RunIdKey(), runId, checkpointKv.VersionKey(), config.Version)
 				}
 				batcher.Put("hset", checkpointKv.Key, checkpointKv.OffsetKey(), lastOffset)
-			} else {
-				ro.cpGuard.Lock()
-				ro.checkpointInMem.Offset = lastOffset
-				ro.cpGuard.Unlock()
 			}
 		}
 
@@ -1142,6 +1152,7 @@ func (ro *RedisOutput) sendCmdsBatch(replayWait usync.WaitCloser, conn client.Re
 			batcher.Put("exec")
 		}
 		if batcher.Len() == 0 {
+			setMemCP()
 			return nil
 		}
 
@@ -1162,6 +1173,7 @@ func (ro *RedisOutput) sendCmdsBatch(replayWait usync.WaitCloser, conn client.Re
 			return err
 		}
 
+		setMemCP()
 		sendOffsetGauge.Set(float64(lastOffset), ro.cfg.InputName)
 		sendSizeCounter.Add(float64(queuedByteSize), ro.cfg.InputName)
 		ro.sendCounterAdd(uint(cmdCounter))
@@ -1247,7 +1259,7 @@ func (ro *RedisOutput) sendCmdsBatch(replayWait usync.WaitCloser, conn client.Re
 	lastOffset := int64(-1)
 	for {
 		transactionBatch := transactionMode
-		shouldUpdateCP := ro.cfg.EnableResumeFromBreakPoint && transactionMode
+		shouldUpdateCP := transactionMode
 		select {
 		case item, ok := <-sendBuf:
 			if !ok {
